@@ -105,6 +105,15 @@ def main(argv):
     frame_slice = Slice.Sample(fs['sample']) if 'sample' in fs else Slice.Slice(fs.get('start'), fs.get('stop'), fs.get('step'))
     args = (spec['array_reduction'], frame_slice, set(spec['channels']), spec['field_width'], spec['float_format'])
     out = {'mode': spec['mode'], 'raised': None, 'results': None}
+    from tdv.mon.hits import MechanismHits
+    hits = MechanismHits([
+        ('TotalDepth.LAS.core.WriteLAS', 'convert_dir_or_file_to_las'), ('TotalDepth.LAS.core.WriteLAS', 'convert_dir_or_file_to_las_multiprocessing'),
+        ('TotalDepth.util.DirWalk', 'dirWalk'), ('TotalDepth.util.DirWalk', 'gen_big_first'),
+        ('TotalDepth.RP66V1.ToLAS', 'single_rp66v1_file_to_las'), ('TotalDepth.RP66V1.ToLAS', 'las_file_name'),
+        ('TotalDepth.LIS.ToLAS', 'single_lis_file_to_las'), ('TotalDepth.BIT.ToLAS', 'single_bit_path_to_las_path'),
+        ('TotalDepth.util.bin_file_type', 'binary_file_type_from_path'),
+    ])
+    hits.start()      # counts calls made in this (driver) process; pool workers are forks and are seen through the event log
     try:
         if spec['mode'] == 'seq':
             res = WriteLAS.convert_dir_or_file_to_las(spec['dir_in'], spec['dir_out'], recurse, args[0], args[1], args[2], args[3], args[4], wrapped_conversion)
@@ -131,6 +140,8 @@ def main(argv):
         import traceback
         out['raised'] = '%s: %s' % (type(e).__name__, str(e)[:300])
         out['traceback'] = traceback.format_exc()[-2500:]
+    hits.stop()
+    out['mechanism_hits'] = hits.counts
     with open(spec['result'], 'w') as f:
         json.dump(out, f)
     # multiprocessing.Pool in the batch function is never closed; leave hard so that lingering workers cannot hang us
